@@ -51,7 +51,7 @@ static Val gen(Rng &r, const std::string &kind) {
   else if (kind == "d") v.d = rdbl(r);
   else if (kind == "b") v.b = r.coin();
   else if (kind == "s") v.s = rstr(r);
-  else if (kind == "vi") { int n = r.coin(1, 4) ? 10 + (int)r.below(30) : (int)r.below(5); for (int k = 0; k < n; k++) v.vi.push_back(r.range(-50, 50)); }
+  else if (kind == "vi") { int n = r.coin(1, 4) ? 10 + (int)r.below(30) : (int)r.below(5); for (int k = 0; k < n; k++) v.vi.push_back(r.coin(1, 4) ? r.range(-50, 50) * 4294967296L + r.range(0, 1000) : r.range(-50, 50)); }
   else if (kind == "vd") { int n = (int)r.below(5); for (int k = 0; k < n; k++) v.vd.push_back(rdbl(r)); }
   else if (kind == "vs") { int n = r.coin(1, 4) ? 10 + (int)r.below(15) : (int)r.below(4); for (int k = 0; k < n; k++) v.vs.push_back(rstr(r)); }
   else if (kind == "m") {
@@ -79,6 +79,16 @@ static CheckpointReader reader_at(CheckpointFile &f, const std::string &path) {
 }
 
 static void write_val(CheckpointWriter &w, const Val &v, const std::string &name) {
+  // one array write in three lands on a name that was just written with an array of the SAME extent but a narrower element type of the same
+  // HDF5 class (int under Index, float under double): writing a name again replaces the old value, whatever kind of array it was
+  static long narrow_ctr = 0;
+  if ((v.kind == "vi" || v.kind == "vd" || v.kind == "m") && ++narrow_ctr % 3 == 0) {
+    try {
+      if (v.kind == "vi" && !v.vi.empty()) { std::vector<int> t(v.vi.size(), 7); w(t, name); }
+      else if (v.kind == "vd" && !v.vd.empty()) { std::vector<float> t(v.vd.size(), 0.5f); w(t, name); }
+      else if (v.kind == "m" && v.m.size() > 0) { Eigen::MatrixXf t = Eigen::MatrixXf::Constant(v.m.rows(), v.m.cols(), 0.25f); w(t, name); }
+    } catch (std::exception &) {}
+  }
   if (v.kind == "i") w((Index)v.i, name);
   else if (v.kind == "d") w(v.d, name);
   else if (v.kind == "b") w(v.b, name);
